@@ -32,9 +32,9 @@ let one_type (s : string) : ty =
 let base_of_type = function TBase b -> b | _ -> raise (Bad "base expected")
 
 (* extended signature (variants as v[...]) -> ety. The flavour markers of gen/catalogue.py select another Rust type for
-   the same D-Bus type and do not exist in the model: D S O G are d s o g, a marker C R N B after 'a' is skipped. *)
+   the same D-Bus type and do not exist in the model: D S O G H are d s o g h, a marker C R N B after 'a' is skipped. *)
 let parse_ety (s : string) : ety =
-  let s = String.map (function 'D' -> 'd' | 'S' -> 's' | 'O' -> 'o' | 'G' -> 'g' | c -> c) s in
+  let s = String.map (function 'D' -> 'd' | 'S' -> 's' | 'O' -> 'o' | 'G' -> 'g' | 'H' -> 'h' | c -> c) s in
   let n = String.length s in
   let pos = ref 0 in
   let rec go () : ety =
